@@ -97,11 +97,28 @@ CONFIG = {
             "UDP tracer packs and HyperLogLog bytes are not among the decoders the statement names (value, step, record, pack)",
         ],
     },
+    "C07": {
+        "level": "exploration",
+        "rule": "C07: writer-derived carriage (no second copy of the version-gate table) over 19 UDP pack types x all gate versions, pool histories with poison values, generated connection strings for password masking.",
+        "groups": [G("c07", shards={"quick": 4, "thorough": 16}, timeout={"quick": 300, "thorough": 1800})],
+        "assumptions": [
+            "text fields are at most 65535 bytes (16-bit length); versions are gate constants +-1, family boundaries +-1 and random in-family values",
+            "writer truncation Truncate(field, CONST) is the documented cap of the transaction-start (and message) fields: the reader must restore the first cap bytes",
+            "ActiveStack data has >= 3 comma-separated parts, ActiveStats holds 5 counters or none (Process preconditions); UdpRelayPack.Read is given Len = len(payload) (not on the wire)",
+            "fields derived by Process() are not wire fields; pool reuse is counted, never required",
+            "masking: the marker occurs only in values of tokens whose key is exactly 'password'; keys such as Password/pwd are outside the statement",
+        ],
+    },
 }
 
 NOT_APPLICABLE = {}
 
 MANIFEST_TEXT = {
+    "C07": {
+        "technique": "property-based testing: metamorphic field-perturbation oracle for writer/reader agreement per version, stateful pool histories with poison values, generated connection strings for masking; exhaustive type x gate-version grid",
+        "level_text": "Generated-input exploration: for every UDP pack type and every protocol version next to a gate the set of fields a version carries is learnt from the writer by perturbing one field at a time, and the reader must restore exactly those fields, consume exactly the bytes and re-encode identically; acquire/fill/release histories check that pooled packs carry no residue; thousands of generated connection strings check that no password value survives Process().",
+        "level_note": "The carriage oracle derives the expected layout from the writer, so a gate changed identically on both sides is not detected (there is no external specification of the UDP protocol in the sandbox).",
+    },
     "C04": {
         "technique": "fault enumeration over generated encodings (every truncation offset, hostile length/count patterns at every offset, single hostile annotated field vs reference decoder), exhaustive short-read and unknown-code sweeps, native coverage-guided fuzzing with an allocation-bound oracle",
         "level_text": "Fault enumeration: for generated valid encodings of every decoder the statement names (values, step streams, transaction/service records, all 37 pack type entries, record blobs, zip payloads) EVERY strict prefix is decoded and must be reported as failure, and 15 hostile count/length patterns are written over and inserted at EVERY offset with termination and a proportional-allocation bound checked per decode; every (read method, missing bytes) combination of the primitive reader and every type code of the four registries is enumerated exhaustively.",
